@@ -746,6 +746,19 @@ func genC06Hist(x *Ctx) {
 			})
 		}
 	}
+	// --- many padding packets in one call (count boundaries of narrower integer types)
+	bigPads := []int{254, 255, 256, 257, 300}
+	if x.Thorough() {
+		bigPads = append(bigPads, 1000, 65535, 65536, 65537)
+	}
+	for _, n := range bigPads {
+		n := n
+		x.Case(func(c *Case) {
+			ops := []pktzOp{{kind: 'G', n: uint32(n)}, {kind: 'P', payload: c.R.Bytes(10), samples: 1, now: 1}}
+			c.Tag("padding:many")
+			runPktzHist(c, pktzCodecs[0], 1200, 96, uint32(c.R.U64()), uint32(c.R.U64()), c.R.Pick(0, 65000, 65535), ops)
+		})
+	}
 	// --- random histories
 	for i, n := 0, x.N(8000, 300000); i < n; i++ {
 		x.Case(func(c *Case) {
